@@ -209,6 +209,81 @@ def f_rule_pairs(pairs, consts=K3, contexts=("stack",), chains=(0,), generic=(5,
     return out
 
 
+
+def rule_branches():
+    """per top-level branch of apply_cond_transformation (AST of the current source): (opcodes of the instruction the branch
+    is entered for, opcodes named inside its lambda filters) -- the latter are the consumers the rule looks for *and* the
+    instructions it looks up to reuse when the rewritten instruction already exists in the block"""
+    path = os.path.join(REPO, "sfs_generator", "gasol_optimization.py")
+    with open(path) as f:
+        tree = ast.parse(f.read())
+
+    def strings(node):
+        return {n.value for n in ast.walk(node) if isinstance(n, ast.Constant) and isinstance(n.value, str)}
+    out = []
+    for fn in ast.walk(tree):
+        if isinstance(fn, ast.FunctionDef) and fn.name == "apply_cond_transformation":
+            def branches(stmts):
+                for st in stmts:
+                    if isinstance(st, ast.If):
+                        heads = sorted(s for s in strings(st.test) if _arity(s) is not None)
+                        lam = set()
+                        for b in st.body:
+                            for n in ast.walk(b):
+                                if isinstance(n, ast.Lambda):
+                                    lam |= {s for s in strings(n) if _arity(s) is not None}
+                        if heads and lam:
+                            out.append((heads, sorted(lam)))
+                        branches(st.orelse)
+            branches(fn.body)
+    return out
+
+
+def f_rule_existing(branches=None):
+    """consumer(head(..), other) next to one more instruction over the same atoms whose result stays on the stack: the
+    branches of the context rules that *reuse an existing instruction* equal to the rewritten one (new_exist) and the
+    guards on other readers are only reachable when such an instruction is in the block"""
+    out = []
+    atoms = [V(0), V(1), V(2), 1]
+    for heads, lam in (branches if branches is not None else rule_branches()):
+        for h in heads:
+            arh = _arity(h)
+            if arh == 0:
+                inners = [(h,)]
+            elif arh == 1:
+                inners = [(h, V(0))]
+            elif arh == 2:
+                inners = [(h, V(0), V(1)), (h, V(0), 1), (h, 1, V(0)), (h, V(0), 0), (h, 0, V(0))]
+            else:
+                continue
+            for c in lam:
+                arc = _arity(c)
+                for ie in inners:
+                    if arc == 1:
+                        tops = [(c, ie)]
+                    elif arc == 2:
+                        tops = [(c, ie, V(2)), (c, V(2), ie), (c, ie, V(1)), (c, V(1), ie)]
+                        if arh == 0:
+                            tops += [(c, ie, (1 << 160) - 1), (c, (1 << 160) - 1, ie)]
+                    else:
+                        continue
+                    for e in sorted(set(lam) | set(heads)):
+                        are = _arity(e)
+                        if are == 0:
+                            exist = [(e,)]
+                        elif are == 1:
+                            exist = [(e, a) for a in atoms[:3]]
+                        elif are == 2:
+                            exist = [(e, a, b) for a in atoms for b in atoms if a is not b]
+                        else:
+                            continue
+                        for top in tops:
+                            for ex in exist:
+                                out.append(" ".join(compile_exprs([ex, top], 3)))
+                                out.append(" ".join(compile_exprs([top, ex], 3)))
+    return list(dict.fromkeys(out))
+
+
 def f_rule_siblings(ops, consts=(0, 1)):
     """two rule-relevant instructions applied to the SAME stack value, both results left on the stack (rules that look
     for an existing instruction on the same operand, e.g. LT(X,1) next to ISZERO(X))"""
@@ -598,3 +673,66 @@ def f_real_documents():
 def example_block_files():
     d = os.path.join(REPO, "examples", "blocks")
     return sorted(os.path.join(d, f) for f in os.listdir(d) if f.endswith(".txt"))
+
+
+def f_growth_chains(ns=(10, 14, 18, 22), ops=("ADD", "MUL", "AND", "SUB")):
+    """(DUP1 OP)^n: the value after step k is op(v, v) of the value before it -- a term DAG of size n whose tree unfolding has
+    2^n leaves.  Work proportional to the block means proportional to n."""
+    return [" ".join(["DUP1 " + op] * n) for op in ops for n in ns]
+
+
+TERMINALS = ["STOP", "RETURN", "REVERT", "INVALID", "SELFDESTRUCT"]
+
+
+def f_mid_terminal(first=("PUSH 1", "POP", "ADD", "DUP1 DUP1 MSTORE", "DUP1 DUP1 LOG0", "PUSH 0 PUSH 1"),
+                   second=("PUSH 1 PUSH 0 ADD", "POP", "PUSH 1", "DUP1 DUP1 MSTORE", "GAS")):
+    """text with a block-ending instruction in the middle: whatever follows it belongs to the next block"""
+    out = []
+    for a in first:
+        for t in TERMINALS:
+            pre = {"RETURN": "PUSH 0 PUSH 0 ", "REVERT": "PUSH 0 PUSH 0 ", "SELFDESTRUCT": "PUSH 0 "}.get(t, "")
+            for b in second:
+                out.append("%s %s%s %s" % (a, pre, t, b))
+    return out
+
+
+def f_long_partition(lengths=(23, 26, 31, 40, 47), max_stores=3):
+    """blocks longer than the 22-instruction threshold of -partition with stores at enumerated places (the partition
+    heuristic only runs on these)"""
+    out = []
+    for n in lengths:
+        slots = list(range(1, n - 3, 4))
+        for r in range(0, max_stores + 1):
+            for pos in itertools.combinations(slots, r):
+                if r >= 2 and (sum(pos) + n) % 3:          # fixed thinning of the many 2- and 3-store placements
+                    continue
+                toks = []
+                k = 0
+                while len(toks) < n:
+                    if k < len(pos) and len(toks) >= pos[k]:
+                        toks += ["DUP2", "DUP2", ("MSTORE", "SSTORE", "MSTORE8")[k % 3]]
+                        k += 1
+                    else:
+                        toks += ["PUSH %x" % (len(toks) + 1), "POP"] if len(toks) % 4 else ["DUP1", "ISZERO", "POP"]
+                out.append(" ".join(toks))
+    return list(dict.fromkeys(out))
+
+
+def f_mem_consuming(deltas=(0, 32)):
+    """stores that consume their operands straight from the input stack (no DUP copy), followed by a load of the same or a
+    neighbouring place: forwarding the stored value then needs a copy the original block never made"""
+    out = []
+    for st, ld in (("MSTORE", "MLOAD"), ("SSTORE", "SLOAD"), ("MSTORE8", "MLOAD")):
+        for d in deltas:
+            c = 0x80
+            out.append("PUSH %x %s PUSH %x %s" % (c, st, c + d, ld))            # constant address, value from the stack
+            out.append("%s PUSH %x %s" % (st, c, ld))                             # both operands from the stack
+            out.append("DUP2 %s %s" % (st, ld))                                   # address reused for the load
+            out.append("DUP3 %s DUP2 %s" % (st, ld))
+            out.append("DUP1 %s" % st)                                            # address = value
+            out.append("SWAP1 %s PUSH %x %s" % (st, c, ld))
+            out.append("DUP2 DUP2 %s %s" % (st, ld))
+            out.append("DUP2 DUP2 %s %s SWAP1 POP" % (st, ld))
+            out.append("PUSH %x %s PUSH %x %s PUSH %x %s" % (c, st, c + d, ld, c, ld))
+            out.append("PUSH %x %s PUSH %x %s DUP2 ADD" % (c, st, c + d, ld))
+    return list(dict.fromkeys(out))
